@@ -275,6 +275,17 @@ impl<'a> Full<'a> {
                     if a != b {
                         v("contents-changed", format!("{}: the key set changed from {:?} to {:?}", descr, b, a));
                     }
+                    // "replacing the VALUE of a key that is already present": the stored key objects stay
+                    // (insert_key_value is the one entry point documented to store the offered key)
+                    if ep != 1 {
+                        let mut ka: Vec<(u32, u32, u64)> = after.iter().map(|e| (e.0, e.1, e.2)).collect();
+                        let mut kb: Vec<(u32, u32, u64)> = before.iter().map(|e| (e.0, e.1, e.2)).collect();
+                        ka.sort_unstable();
+                        kb.sort_unstable();
+                        if ka != kb {
+                            v("key-object-replaced-on-full", format!("{}: the stored key objects changed: before {:?}, after {:?} (class, tag, key id)", descr, kb, ka));
+                        }
+                    }
                     if F::TRACKED && ledger::alive_count() != alive_before {
                         v("ownership", format!("{}: {} objects alive before, {} after a replace on a full map (old value / supplied key must be destroyed once)", descr, alive_before, ledger::alive_count()));
                     }
